@@ -127,7 +127,8 @@ def cases_system(tier):
     if tier == 'thorough':
         out += [dict(K=2, stop=2, ray='chief', obj='inf'), dict(K=2, stop=2, ray='chief', obj='inf', edit=True),
                 dict(K=2, stop=2, ray='marginal', obj='inf'), dict(K=2, stop=1, ray='chief', obj='inf'),
-                dict(K=1, stop=1, ray='marginal', obj='finite'), dict(K=2, stop=2, ray='marginal', obj='finite')]
+                dict(K=1, stop=1, ray='marginal', obj='finite'), dict(K=2, stop=2, ray='marginal', obj='finite'),
+                dict(K=2, stop=2, ray='chief', obj='finite')]     # finite object with ANGULAR fields, entrance pupil not at the first vertex
     return out
 
 
